@@ -31,6 +31,8 @@ const (
 	avStr // S is the exact value (Exact) or a known prefix
 	avRef // nil-ness of pointer/interface/map/slice/func/chan values; errors carry a class
 	avTuple
+	avPtr   // pointer to a local allocation (identity: context + Alloc)
+	avFAddr // address of field I of such an allocation
 )
 
 type ErrClass uint8
@@ -50,6 +52,8 @@ type AV struct {
 	Nil   bool // avRef: true = definitely nil, false = definitely non-nil
 	E     ErrClass
 	T     []AV
+	PC    *Ctx       // avPtr / avFAddr
+	PA    *ssa.Alloc // avPtr / avFAddr
 }
 
 var Top = AV{}
@@ -78,6 +82,10 @@ func (a AV) equal(b AV) bool {
 		return a.S == b.S && a.Exact == b.Exact
 	case avRef:
 		return a.Nil == b.Nil && a.E == b.E
+	case avPtr:
+		return a.PC == b.PC && a.PA == b.PA
+	case avFAddr:
+		return a.PC == b.PC && a.PA == b.PA && a.I == b.I
 	case avTuple:
 		if len(a.T) != len(b.T) {
 			return false
@@ -129,6 +137,7 @@ type vkey struct {
 	c    *Ctx
 	v    ssa.Value
 	cell bool // the content of the memory cell allocated by v (an *ssa.Alloc), not the pointer
+	fld  int  // 0 = the cell itself; i+1 = field i of the struct allocated by v
 }
 
 type env map[vkey]AV
@@ -329,7 +338,15 @@ func (it *interp) val(c *Ctx, v ssa.Value, e env) AV {
 	switch v := v.(type) {
 	case *ssa.Const:
 		return constAV(v)
-	case *ssa.Function, *ssa.MakeClosure, *ssa.Alloc, *ssa.MakeMap, *ssa.MakeSlice, *ssa.MakeChan,
+	case *ssa.Alloc:
+		if a, ok := e[vkey{c: c, v: v}]; ok {
+			return a
+		}
+		if _, isStruct := deref(v.Type()).Underlying().(*types.Struct); isStruct && trackableStruct(v) {
+			return AV{K: avPtr, PC: c, PA: v}
+		}
+		return NonNilAV(ErrOther)
+	case *ssa.Function, *ssa.MakeClosure, *ssa.MakeMap, *ssa.MakeSlice, *ssa.MakeChan,
 		*ssa.FieldAddr, *ssa.IndexAddr, *ssa.Global, *ssa.MakeInterface:
 		if a, ok := e[vkey{c: c, v: v}]; ok {
 			return a
@@ -369,9 +386,19 @@ func (it *interp) transfer(n *Node, e env) {
 		return
 	}
 	if st, isStore := n.Instr.(*ssa.Store); isStore {
+		if fa := it.val(n.Ctx, st.Addr, e); fa.K == avFAddr {
+			a := it.val(n.Ctx, st.Val, e)
+			k := vkey{c: fa.PC, v: fa.PA, cell: true, fld: int(fa.I) + 1}
+			if a.IsTop() {
+				delete(e, k)
+			} else {
+				e[k] = a
+			}
+			return
+		}
 		if c, al := it.cellOf(n.Ctx, st.Addr); al != nil {
 			a := it.val(n.Ctx, st.Val, e)
-			k := vkey{c, al, true}
+			k := vkey{c: c, v: al, cell: true}
 			if a.IsTop() {
 				delete(e, k)
 			} else {
@@ -399,6 +426,11 @@ func (it *interp) transfer(n *Node, e env) {
 func (it *interp) eval(n *Node, v ssa.Value, e env) AV {
 	c := n.Ctx
 	switch x := v.(type) {
+	case *ssa.FieldAddr:
+		if b := it.val(c, x.X, e); b.K == avPtr {
+			return AV{K: avFAddr, PC: b.PC, PA: b.PA, I: int64(x.Field)}
+		}
+		return NonNilAV(ErrOther)
 	case *ssa.BinOp:
 		return binop(x.Op, it.val(c, x.X, e), it.val(c, x.Y, e))
 	case *ssa.UnOp:
@@ -409,6 +441,11 @@ func (it *interp) eval(n *Node, v ssa.Value, e env) AV {
 				return BoolAV(!a.B)
 			}
 		case token.MUL: // load
+			if fa := it.val(c, x.X, e); fa.K == avFAddr {
+				if a, ok := e[vkey{c: fa.PC, v: fa.PA, cell: true, fld: int(fa.I) + 1}]; ok {
+					return a
+				}
+			}
 			switch addr := x.X.(type) {
 			case *ssa.FieldAddr:
 				if it.sc.FieldLoad != nil {
@@ -424,7 +461,7 @@ func (it *interp) eval(n *Node, v ssa.Value, e env) AV {
 				}
 			case *ssa.Alloc, *ssa.FreeVar:
 				if cc, al := it.cellOf(c, addr); al != nil {
-					if a, ok := e[vkey{cc, al, true}]; ok {
+					if a, ok := e[vkey{c: cc, v: al, cell: true}]; ok {
 						return a
 					}
 				}
@@ -532,13 +569,63 @@ func (it *interp) modelCall(n *Node, cc *ssa.CallCommon, e env) AV {
 		}
 	case "errors.New", "fmt.Errorf":
 		return NonNilAV(ErrOther)
-	case "strings.Join", "fmt.Sprintf", "fmt.Sprint":
+	case "fmt.Sprintf":
+		// known prefix of the result: literal text and exactly known %s/%v arguments, up to the first unknown piece
+		f := it.val(c, cc.Args[0], e)
+		if f.K != avStr || !f.Exact || len(cc.Args) < 2 {
+			return Top
+		}
+		vals := variadicValues(cc.Args[1])
+		var b strings.Builder
+		ai := 0
+		exact := true
+		for i := 0; i < len(f.S) && exact; i++ {
+			ch := f.S[i]
+			if ch != '%' {
+				b.WriteByte(ch)
+				continue
+			}
+			if i+1 < len(f.S) && f.S[i+1] == '%' {
+				b.WriteByte('%')
+				i++
+				continue
+			}
+			if i+1 >= len(f.S) || (f.S[i+1] != 's' && f.S[i+1] != 'v') || vals == nil || ai >= len(vals) {
+				exact = false
+				break
+			}
+			a := it.val(c, vals[ai], e)
+			ai++
+			i++
+			if a.K == avStr && a.Exact {
+				b.WriteString(a.S)
+			} else if a.K == avStr {
+				b.WriteString(a.S)
+				exact = false
+			} else {
+				exact = false
+			}
+		}
+		if exact {
+			return StrAV(b.String())
+		}
+		if b.Len() > 0 {
+			return PrefixAV(b.String())
+		}
+		return Top
+	case "strings.Join", "fmt.Sprint":
 		return Top
 	}
 	return Top
 }
 
 func binop(op token.Token, a, b AV) AV {
+	if a.K == avPtr || a.K == avFAddr {
+		a = NonNilAV(ErrOther)
+	}
+	if b.K == avPtr || b.K == avFAddr {
+		b = NonNilAV(ErrOther)
+	}
 	switch op {
 	case token.EQL, token.NEQ:
 		eq, known := false, false
@@ -734,6 +821,22 @@ func (it *interp) edge(from, to *Node, e env) env {
 					a := it.val(from.Ctx, mc.Bindings[i], e)
 					if !a.IsTop() {
 						o[vkey{c: to.Ctx, v: fv}] = a
+					}
+				}
+			}
+		}
+		return o
+	}
+	// higher-order head -> callback entry: bind the callback's free variables from the closure argument
+	if from.Kind == KHOHead && to.Ctx != from.Ctx && to.Ctx.Callback && to.Ctx.CallNode != nil && to.Ctx.CallNode.Call != nil {
+		o := e.clone()
+		for _, arg := range to.Ctx.CallNode.Call.Args {
+			if mc, ok := arg.(*ssa.MakeClosure); ok && mc.Fn == ssa.Value(to.Ctx.Fn) {
+				for i, fv := range to.Ctx.Fn.FreeVars {
+					if i < len(mc.Bindings) {
+						if a := it.val(from.Ctx, mc.Bindings[i], e); !a.IsTop() {
+							o[vkey{c: to.Ctx, v: fv}] = a
+						}
 					}
 				}
 			}
@@ -1021,4 +1124,131 @@ func (it *interp) returnClass(n *Node, e env) uint8 {
 		return 2
 	}
 	return 0
+}
+
+var trackableCache = map[*ssa.Alloc]bool{}
+
+// trackableStruct: a locally allocated struct whose address is only used for field access, passed as an
+// argument or receiver to functions of the analysed module (which the expanded CFG inlines, so their field
+// stores are seen), bound into closures of the module, or returned.  Anything else (stored into memory,
+// passed to an external function, sent on a channel) makes the struct untracked.
+func trackableStruct(al *ssa.Alloc) bool {
+	if v, ok := trackableCache[al]; ok {
+		return v
+	}
+	ok := al.Referrers() != nil
+	if ok {
+		for _, r := range *al.Referrers() {
+			switch x := r.(type) {
+			case *ssa.FieldAddr, *ssa.DebugRef, *ssa.Return:
+			case *ssa.MakeClosure:
+			case *ssa.Call:
+				f := x.Call.StaticCallee()
+				if f == nil || f.Blocks == nil || f.Pkg == nil || !strings.HasPrefix(f.Pkg.Pkg.Path(), ModPath) {
+					ok = false
+				}
+			case *ssa.Store:
+				if x.Val == ssa.Value(al) {
+					ok = false
+				}
+			default:
+				ok = false
+			}
+		}
+	}
+	trackableCache[al] = ok
+	return ok
+}
+
+// May computes, on the subgraph that is feasible under the scenario, the events that may hold on entry to each
+// node (union over feasible paths from the start; Kill removes an event along a path).
+func (r *ScnResult) May(tf func(*Node) Transfer) map[*Node]Bits {
+	in := map[pnode]Bits{}
+	out := map[pnode]Bits{}
+	work := []pnode{r.startKey}
+	inWork := map[pnode]bool{r.startKey: true}
+	preds := map[pnode][]pnode{}
+	for p, ss := range r.edges {
+		for _, s := range ss {
+			preds[s] = append(preds[s], p)
+		}
+	}
+	for p := range r.Reach {
+		if !inWork[p] {
+			inWork[p] = true
+			work = append(work, p)
+		}
+	}
+	for len(work) > 0 {
+		p := work[0]
+		work = work[1:]
+		inWork[p] = false
+		var i Bits
+		for _, q := range preds[p] {
+			i |= out[q]
+		}
+		in[p] = i
+		t := tf(p.n)
+		o := (i &^ t.Kill) | t.Gen
+		if t.Reset {
+			o = t.Gen
+		}
+		if o != out[p] {
+			out[p] = o
+			for _, s := range r.edges[p] {
+				if !inWork[s] {
+					inWork[s] = true
+					work = append(work, s)
+				}
+			}
+		}
+	}
+	res := map[*Node]Bits{}
+	for p, b := range in {
+		res[p.n] |= b
+	}
+	return res
+}
+
+// variadicValues returns the values stored into the compiler-built argument array of a variadic call
+// (each unwrapped from its interface conversion), or nil when the shape is not recognised.
+func variadicValues(v ssa.Value) []ssa.Value {
+	sl, ok := v.(*ssa.Slice)
+	if !ok {
+		return nil
+	}
+	al, ok := sl.X.(*ssa.Alloc)
+	if !ok || al.Referrers() == nil {
+		return nil
+	}
+	arr, ok := deref(al.Type()).Underlying().(*types.Array)
+	if !ok {
+		return nil
+	}
+	out := make([]ssa.Value, arr.Len())
+	for _, r := range *al.Referrers() {
+		ia, ok := r.(*ssa.IndexAddr)
+		if !ok || ia.Referrers() == nil {
+			continue
+		}
+		k, ok := ia.Index.(*ssa.Const)
+		if !ok {
+			return nil
+		}
+		for _, r2 := range *ia.Referrers() {
+			if st, ok := r2.(*ssa.Store); ok && st.Addr == ssa.Value(ia) && int(k.Int64()) < len(out) {
+				val := st.Val
+				if mi, ok := val.(*ssa.MakeInterface); ok {
+					val = mi.X
+				}
+				out[k.Int64()] = val
+			}
+		}
+	}
+	for _, o := range out {
+		if o == nil {
+			return nil
+		}
+	}
+	return out
 }
